@@ -21,6 +21,7 @@ BUDGET = {
     "quick": {"examples": 200, "shards": 4, "case_timeout": 60, "wall_budget": 240},
     "thorough": {"examples": 5000, "shards": 16, "case_timeout": 120, "wall_budget": 1800},
 }
+FUZZ = {"thorough": dict(runs=20000, procs=8, wall_s=600)}
 TOLERANCES = {"solution": "1e3 * eps(dtype) * max(1, |y|)"}
 SOLVERS = {"ito": ["euler"], "stratonovich": ["euler_heun", "heun", "midpoint", "reversible_heun", "log_ode"]}
 
